@@ -163,7 +163,8 @@ class TBRiROAS():
     response_data = self.tbr_response.analysis_data.copy().reset_index()
     observed_treatment_response = response_data.loc[
         (response_data[self.df_names.group] == self.groups.treatment) &
-        (response_data['period'].isin(periods)), self.df_names.response].sum()
+        (response_data[self.df_names.period].isin(periods)),
+        self.df_names.response].sum()
 
     # Obtain the distributions of the causal effects on response
     delta_response = self.tbr_response.causal_cumulative_distribution(time=-1)
@@ -312,13 +313,16 @@ class TBRiROAS():
 
     metric_data = metric_df.analysis_data.copy().reset_index()
     # Only the pre-test, test and cooldown dates enter the report.
-    metric_data = metric_data[metric_data['period'].isin(periods)]
+    key_period = self.df_names.period
+    key_date = self.df_names.date
+    key_cost = self.df_names.cost
+    metric_data = metric_data[metric_data[key_period].isin(periods)]
 
-    dates = np.sort(metric_data.loc[metric_data['period'].isin(periods),
-                                    'date'].unique())
+    dates = np.sort(metric_data.loc[metric_data[key_period].isin(periods),
+                                    key_date].unique())
     experiment_dates = np.sort(metric_data.loc[
-        metric_data['period'].isin([self.periods.test, self.periods.cooldown]),
-        'date'].unique())
+        metric_data[key_period].isin([self.periods.test, self.periods.cooldown]),
+        key_date].unique())
 
     if self._is_fixed_cost_scenario() and metric == 'tbr_cost':
       tmp_data = metric_data[metric_data[self.df_names.group] ==
@@ -333,13 +337,13 @@ class TBRiROAS():
       pointwise_difference_df = common_classes.EstimatedTimeSeriesWithConfidenceInterval(
           {
               'date': dates,
-              'lower': tmp_data['cost'],
-              'upper': tmp_data['cost'],
-              'estimate': tmp_data['cost'],
+              'lower': tmp_data[key_cost],
+              'upper': tmp_data[key_cost],
+              'estimate': tmp_data[key_cost],
           })
 
       cumulative_effect = np.cumsum(
-          tmp_data.loc[tmp_data['date'].isin(experiment_dates), 'cost'])
+          tmp_data.loc[tmp_data[key_date].isin(experiment_dates), key_cost])
       cumulative_effect_df = common_classes.EstimatedTimeSeriesWithConfidenceInterval(
           {
               'date': experiment_dates,
@@ -357,11 +361,11 @@ class TBRiROAS():
           periods).reset_index().rename(columns={0: 'metric'})
       lower = np.diff(delta_metric.ppf(tail_probability), prepend=0)
       lower = np.concatenate((pointwise_difference.loc[
-          pointwise_difference['date'] < test_start_date,
+          pointwise_difference[key_date] < test_start_date,
           'metric'].values, lower))
       upper = np.diff(delta_metric.ppf(1 - tail_probability), prepend=0)
       upper = np.concatenate((pointwise_difference.loc[
-          pointwise_difference['date'] < test_start_date,
+          pointwise_difference[key_date] < test_start_date,
           'metric'].values, upper))
       # Get the test- period data in the form needed for regression.
       treat_vec = metric_data.loc[
@@ -387,7 +391,8 @@ class TBRiROAS():
           metric_df.causal_effect(periods)).reset_index().rename(
               columns={0: 'metric'})
       cumulative_effect = cumulative_effect.loc[
-          cumulative_effect['date'].between(test_start_date, cooldown_end_date),
+          cumulative_effect[key_date].between(test_start_date,
+                                            cooldown_end_date),
           'metric']
       cumulative_effect_df = common_classes.EstimatedTimeSeriesWithConfidenceInterval(
           {
